@@ -13,40 +13,40 @@ import FlVerif.Op.Degree
 namespace Drv
 open SExp Lang Op
 
-def hexVal (c : Char) : Option Nat :=
+def lgHexVal (c : Char) : Option Nat :=
   if '0' ≤ c && c ≤ '9' then some (c.toNat - '0'.toNat)
   else if 'a' ≤ c && c ≤ 'f' then some (c.toNat - 'a'.toNat + 10)
   else none
 
-def unhexBytes : List Char → Option (List UInt8)
+def lgUnhexBytes : List Char → Option (List UInt8)
   | [] => some []
   | a :: b :: rest => do
-    let x ← hexVal a
-    let y ← hexVal b
-    let r ← unhexBytes rest
+    let x ← lgHexVal a
+    let y ← lgHexVal b
+    let r ← lgUnhexBytes rest
     pure (UInt8.ofNat (16 * x + y) :: r)
   | _ => none
 
 /-- free text travels as `h<hex of utf-8>` -/
-def unhex (s : String) : Option String :=
+def lgUnhex (s : String) : Option String :=
   match s.toList with
   | 'h' :: cs => do
-    let bs ← unhexBytes cs
+    let bs ← lgUnhexBytes cs
     String.fromUTF8? ⟨bs.toArray⟩
   | _ => none
 
-def hexDigit (n : Nat) : Char := if n < 10 then Char.ofNat (48 + n) else Char.ofNat (87 + n)
+def lgHexDigit (n : Nat) : Char := if n < 10 then Char.ofNat (48 + n) else Char.ofNat (87 + n)
 def tohex (s : String) : String :=
-  "h" ++ String.ofList (s.toUTF8.toList.flatMap fun b => [hexDigit (b.toNat / 16), hexDigit (b.toNat % 16)])
+  "h" ++ String.ofList (s.toUTF8.toList.flatMap fun b => [lgHexDigit (b.toNat / 16), lgHexDigit (b.toNat % 16)])
 
-def asText : SExp → Option String
-  | atom s => unhex s
+def lgAsText : SExp → Option String
+  | atom s => lgUnhex s
   | _ => none
 
 def asBindings (e : SExp) : Option (List (String × X Rat)) := do
   (← e.asList).mapM fun kv =>
     match kv with
-    | list [k, v] => do pure (← asText k, ← v.asX)
+    | list [k, v] => do pure (← lgAsText k, ← v.asX)
     | _ => none
 
 /-- words of free text go out hex-encoded (they may contain parentheses) -/
@@ -94,12 +94,12 @@ structure VarD where
   acts : List (String × X Rat)
 
 def asTermD : SExp → Option TermD
-  | list [n, atom cls, ps, h] => do pure ⟨← asText n, cls, ← ps.asXs, ← h.asX⟩
+  | list [n, atom cls, ps, h] => do pure ⟨← lgAsText n, cls, ← ps.asXs, ← h.asX⟩
   | _ => none
 
 def asVarD : SExp → Option VarD
   | list [n, atom kind, en, ts, atom agg, acts] => do
-      let name ← asText n
+      let name ← lgAsText n
       let terms ← (← ts.asList).mapM asTermD
       let acts ← asBindings acts
       pure ⟨⟨name, kind == "out", ← en.asBool, terms.map (·.name)⟩, terms,
@@ -142,7 +142,7 @@ def mkCtx (vs : List VarD) (conj disj : Option String) (row : List (String × X 
     conj := cj
     disj := dj }
 
-def optName : SExp → Option (Option String)
+def lgOptName : SExp → Option (Option String)
   | atom "none" => some none
   | atom s => some (some s)
   | _ => none
@@ -150,7 +150,7 @@ def optName : SExp → Option (Option String)
 def lang : List SExp → Option SExp
   -- (c17 formula fvars ((evars x) …)): load result, then one value per row
   | [atom "c17", formula, fvars, rows] => do
-      let text ← asText formula
+      let text ← lgAsText formula
       let fv ← asBindings fvars
       let rows ← (← rows.asList).mapM asRow
       let tbl := Gen.Tables.elements
@@ -165,16 +165,16 @@ def lang : List SExp → Option SExp
           | .ok (_, v) => valSx v
         pure (list [atom "ok", pf, exprSx e, list vals])
   | [atom "float", t] => do
-      match parseFloat (← asText t) with
+      match parseFloat (← lgAsText t) with
       | some x => pure (ofX x)
       | none => pure (atom "none")
   -- (rule text (vars…) (conj disj) (rows…)): Rule.create(text, engine), then activate_with per row
   | [atom "rule", text, vars, list [cj, dj], rows] => do
-      let text ← asText text
+      let text ← lgAsText text
       let vs ← (← vars.asList).mapM asVarD
       let rows ← (← rows.asList).mapM asBindings
-      let conj ← optName cj
-      let disj ← optName dj
+      let conj ← lgOptName cj
+      let disj ← lgOptName dj
       let eng : EngineInfo := ⟨vs.map (·.info), Gen.Tables.hedgeKeys⟩
       match ruleCreate Gen.Tables.elements eng text with
       | .error (k, st) => pure (list [atom "err", atom k.str, atom (stageStr st)])
